@@ -85,15 +85,54 @@ func c09Expect(p []byte, trailerValid bool) int {
 
 func c09World(t *testing.T, r *simcore.Run) any {
 	tp := r.Tape
-	w := newIPWorld(r, time.Duration(tp.Range(0, int64(time.Hour), "srvoff")), 0)
-	prov := ntske.NewProvider()
-	r.ProcDelayMaxNs = []int64{0, 20000}[tp.Intn(2, "pdelay")]
-	w.startListeners(8, prov)
-
-	// which slice of the enumerated space does this run cover?
+	// which slice of the enumerated space does this run cover? The space is enumerated twice:
+	// runs 0..nEnumRuns-1 against the IP listeners, runs nEnumRuns..2*nEnumRuns-1 against the
+	// SCION listeners (the same payloads inside SCION/UDP packets handed over by a border
+	// router); of the sampled runs after that every third is over SCION.
 	idx := int(r.Index)
 	total := c09Total()
 	nEnumRuns := (total + c09CasesPerRun - 1) / c09CasesPerRun
+	overSCION := false
+	switch {
+	case idx >= nEnumRuns && idx < 2*nEnumRuns:
+		overSCION = true
+		idx -= nEnumRuns
+	case idx >= 2*nEnumRuns:
+		overSCION = idx%3 == 1
+	}
+	prov := ntske.NewProvider()
+	var w *ipWorld
+	var sw *scionWorld
+	var net *simnet.Net
+	var srvHost *simnet.Host
+	var cliNode *simcore.Node
+	var spawn func(string, func())
+	var segs []int
+	rtr := netip.AddrPortFrom(netip.MustParseAddr("10.0.1.1"), scRouterPort)
+	if overSCION {
+		sw = newSCIONWorld(r, time.Duration(tp.Range(0, int64(time.Hour), "srvoff")), 1)
+		r.ProcDelayMaxNs = []int64{0, 20000}[tp.Intn(2, "pdelay")]
+		sw.startServers(4, false, 0, prov, false)
+		net, srvHost, cliNode, spawn = sw.net, sw.srv, sw.cli.Node, sw.goSafe
+		if tp.Bool(2, 3, "path") {
+			segs = []int{2 + tp.Intn(5, "h")}
+		}
+		r.Probe("transport:scion")
+	} else {
+		w = newIPWorld(r, time.Duration(tp.Range(0, int64(time.Hour), "srvoff")), 0)
+		r.ProcDelayMaxNs = []int64{0, 20000}[tp.Intn(2, "pdelay")]
+		w.startListeners(8, prov)
+		net, srvHost, cliNode, spawn = w.net, w.srv, w.cli.Node, w.goSafe
+	}
+	srvAddr := netip.AddrPortFrom(netip.MustParseAddr(ipSrvIP), ipPort)
+	// wrap puts an NTP payload on the wire towards the listeners
+	wrap := func(payload []byte, srcIP string, srcPort uint16, note string) *simnet.Datagram {
+		if overSCION {
+			raw := buildSCION(scCliIA, scSrvIA, srcIP, scSrvIP, srcPort, scSvcPort, segs, 0, payload)
+			return net.NewDatagram(rtr, netip.AddrPortFrom(netip.MustParseAddr(scSrvIP), scSvcPort), raw, note)
+		}
+		return net.NewDatagram(netip.AddrPortFrom(netip.MustParseAddr(srcIP), srcPort), srvAddr, payload, note)
+	}
 	var cases []c09Case
 	mk := func(first byte, length int, trailer string) c09Case {
 		c := c09Case{first: first, length: length, trailer: trailer}
@@ -164,13 +203,13 @@ func c09World(t *testing.T, r *simcore.Run) any {
 	// receive timestamp, a missing or late transmit timestamp - each request is still
 	// answered exactly once
 	if mode == "sampled" && tp.Bool(1, 2, "tsfaults") {
-		srvPlan := w.net.Plan
+		srvPlan := net.Plan
 		srvPlan.RxStampMissing, srvPlan.RxStampNS = uint64(tp.Intn(300, "rxmiss")), uint64(tp.Intn(300, "rxns"))
 		if tp.Bool(1, 2, "txfaults") {
 			srvPlan.TxStampMissing, srvPlan.TxStampLate = uint64(tp.Intn(200, "txmiss")), uint64(tp.Intn(100, "txlate"))
 		}
-		w.net.PlanFor = func(d *simnet.Datagram, at *simnet.UDPConn) *simnet.FaultPlan {
-			if at != nil && at.Host() == w.srv {
+		net.PlanFor = func(d *simnet.Datagram, at *simnet.UDPConn) *simnet.FaultPlan {
+			if at != nil && at.Host() == srvHost {
 				return &srvPlan
 			}
 			return nil
@@ -185,8 +224,8 @@ func c09World(t *testing.T, r *simcore.Run) any {
 	}
 	byID := map[uint64]*acct{}
 	byOrig := map[uint64]*acct{}
-	w.net.OnSend = func(d *simnet.Datagram) {
-		if d.SrcConn != nil && d.SrcConn.Host() == w.srv {
+	net.OnSend = func(d *simnet.Datagram) {
+		if d.SrcConn != nil && d.SrcConn.Host() == srvHost {
 			if a := byID[d.Cause]; a != nil {
 				a.replies = append(a.replies, d)
 			} else if a := byOrig[d.Cause]; a != nil {
@@ -195,18 +234,18 @@ func c09World(t *testing.T, r *simcore.Run) any {
 		}
 	}
 	// the sender's sockets only collect
-	sink, err := w.net.Listen(ipCliIP+":5000", false)
-	if err != nil {
-		panic(err)
+	if !overSCION {
+		if _, err := net.Listen(ipCliIP+":5000", false); err != nil {
+			panic(err)
+		}
 	}
-	_ = sink
 	dupRate := uint64(0)
 	if mode == "sampled" {
 		dupRate = uint64(tp.Intn(300, "dup"))
 	}
 	checked, answered := 0, 0
 	var samples []string
-	w.goSafe("driver", func() {
+	spawn("driver", func() {
 		defer r.Finish()
 		for i := range cases {
 			c := &cases[i]
@@ -215,21 +254,21 @@ func c09World(t *testing.T, r *simcore.Run) any {
 				c.srcPort = uint16(1 + tp.Intn(65535, "sport"))
 			}
 			src := netip.AddrPortFrom(netip.MustParseAddr(ipCliIP), c.srcPort)
-			d := w.net.NewDatagram(src, w.srvAddr, c.payload, "crafted")
+			d := wrap(c.payload, ipCliIP, c.srcPort, "crafted")
 			a := &acct{c: c, src: src}
 			byID[d.ID] = a
-			w.net.Inject(d, 50*time.Microsecond)
+			net.Inject(d, 50*time.Microsecond)
 			copies := 1
 			if dupRate > 0 && tp.Bool(dupRate, 1000, "dup?") {
 				// the network duplicates the datagram: each copy gets its own single reply
-				dd := w.net.NewDatagram(src, w.srvAddr, append([]byte(nil), c.payload...), "crafted dup")
+				dd := wrap(append([]byte(nil), c.payload...), ipCliIP, c.srcPort, "crafted dup")
 				dd.OrigID = d.ID
 				byOrig[dd.ID] = a
-				w.net.Inject(dd, time.Duration(50+tp.Intn(100, "dupdelay"))*time.Microsecond)
+				net.Inject(dd, time.Duration(50+tp.Intn(100, "dupdelay"))*time.Microsecond)
 				copies = 2
 				r.Fault("duplicate")
 			}
-			if r.Sleep(fmt.Sprintf("settle:%d", i), w.cli.Node, 5*time.Millisecond).Killed {
+			if r.Sleep(fmt.Sprintf("settle:%d", i), cliNode, 5*time.Millisecond).Killed {
 				return
 			}
 			want := c.expect * copies
@@ -243,22 +282,34 @@ func c09World(t *testing.T, r *simcore.Run) any {
 				return
 			}
 			for _, rep := range a.replies {
-				if rep.Dst != src {
+				ntpBytes := rep.Payload
+				if overSCION {
+					// back to the previous hop, addresses and ports exchanged
+					sp := parseSCION(rep.Payload)
+					dh, _ := netip.AddrFromSlice(sp.scn.RawDstAddr)
+					sh, _ := netip.AddrFromSlice(sp.scn.RawSrcAddr)
+					if rep.Dst != rtr || !sp.ok || !sp.isUDP || sp.scn.DstIA != scCliIA || sp.scn.SrcIA != scSrvIA || dh.Unmap() != src.Addr() || sh.Unmap() != netip.MustParseAddr(scSrvIP) ||
+						sp.udp.DstPort != c.srcPort || sp.udp.SrcPort != scSvcPort {
+						r.Fail("C09", "reply/addressing", "SCION reply to a request from %v,%v went to %v (%v,%v port %d, from port %d)", scCliIA, src, rep.Dst, sp.scn.DstIA, dh, sp.udp.DstPort, sp.udp.SrcPort)
+						return
+					}
+					ntpBytes = sp.pld
+				} else if rep.Dst != src {
 					r.Fail("C09", "reply/addressing", "reply to a request from %v went to %v", src, rep.Dst)
 					return
 				}
-				rp, ok := decodeNTP(rep.Payload)
+				rp, ok := decodeNTP(ntpBytes)
 				if !ok || rp.Version() != 4 || rp.Mode() != ntp.ModeServer || rp.Stratum != 1 {
-					r.Fail("C09", "reply/header", "reply header LVM %#02x stratum %d: not version 4, server mode, stratum 1", rep.Payload[0], rep.Payload[1])
+					r.Fail("C09", "reply/header", "reply header LVM %#02x stratum %d: not version 4, server mode, stratum 1", ntpBytes[0], ntpBytes[1])
 					return
 				}
 				// anti-reflection: a reply fed back to the listeners (forged source) is not answered
 				if i%8 == 0 {
-					fb := w.net.NewDatagram(netip.AddrPortFrom(netip.MustParseAddr(ipAtkIP), 123), w.srvAddr, append([]byte(nil), rep.Payload...), "reflected reply")
+					fb := wrap(append([]byte(nil), ntpBytes...), ipAtkIP, 123, "reflected reply")
 					fa := &acct{c: c}
 					byID[fb.ID] = fa
-					w.net.Inject(fb, 50*time.Microsecond)
-					if r.Sleep(fmt.Sprintf("settle-refl:%d", i), w.cli.Node, 5*time.Millisecond).Killed {
+					net.Inject(fb, 50*time.Microsecond)
+					if r.Sleep(fmt.Sprintf("settle-refl:%d", i), cliNode, 5*time.Millisecond).Killed {
 						return
 					}
 					if len(fa.replies) != 0 {
@@ -268,6 +319,9 @@ func c09World(t *testing.T, r *simcore.Run) any {
 					r.Probe("reflection-checked")
 				}
 				answered++
+			}
+			if want > 0 && overSCION {
+				r.Probe("answered-over-scion")
 			}
 			if want > 0 {
 				r.Probe("answered")
@@ -293,7 +347,7 @@ func c09World(t *testing.T, r *simcore.Run) any {
 	if mode == "enumerated" {
 		r.Count("enumerated-cases", int64(checked))
 	}
-	return map[string]any{"mode": mode, "cases": checked, "answered": answered, "examples": samples}
+	return map[string]any{"mode": mode, "over_scion": overSCION, "cases": checked, "answered": answered, "examples": samples}
 }
 
 func init() {
